@@ -38,6 +38,13 @@ func main() {
 	if fn, ok := checks.Children[os.Args[1]]; ok {
 		os.Exit(fn(os.Args[2:]))
 	}
+	if tier == "replay" && len(os.Args) >= 4 {
+		if rf, ok := checks.Replays[id]; ok {
+			os.Exit(rf(os.Args[3]))
+		}
+		fmt.Printf("no scenario replay for %s: the replay file holds the literal failing input; rerun with the recorded VERIF_SEED\n", id)
+		os.Exit(0)
+	}
 	fn, ok := checks.Registry[id]
 	if !ok {
 		fmt.Printf("unknown property %s\n", id)
